@@ -10,6 +10,7 @@ import (
 
 	"github.com/ipfs/go-cid"
 	"github.com/ipld/go-ipld-prime/datamodel"
+	basicnode "github.com/ipld/go-ipld-prime/node/basic"
 
 	"verif/harness/core"
 	"verif/harness/gen"
@@ -334,6 +335,33 @@ func (d *c12Dag) static(miss map[string]bool, kind store.ErrKind, viol func(sig,
 			default:
 				if err == nil || store.IsInjected(err) {
 					viol("lookup-nonmember", fmt.Sprintf("%s %s: lookup(%q) err=%v, want not-found", d.c, what, q, err))
+				}
+			}
+			// the other error-returning entry points (by node with a plain and
+			// with a dag-pb typed key -- the type the directory's own iterators
+			// hand out --, by segment): a lookup across an unavailable shard
+			// reports the load error through each of them
+			if blocked {
+				for _, ep := range []struct {
+					name string
+					f    func() (datamodel.Node, error)
+				}{
+					{"LookupByNode(basicnode string)", func() (datamodel.Node, error) { return nn.LookupByNode(basicnode.NewString(q)) }},
+					{"LookupByNode(dagpb string)", func() (datamodel.Node, error) { return nn.LookupByNode(pbString(q)) }},
+					{"LookupBySegment", func() (datamodel.Node, error) { return nn.LookupBySegment(datamodel.PathSegmentOfString(q)) }},
+				} {
+					var v2 datamodel.Node
+					var err2 error
+					if p, pv := core.Guard(func() { v2, err2 = ep.f() }); p {
+						viol("panic lookup-with-missing", fmt.Sprintf("%s %s %s(%q): %v", d.c, what, ep.name, q, pv))
+						continue
+					}
+					_ = v2
+					if err2 == nil {
+						viol("missing-shard-lookup-value", fmt.Sprintf("%s %s: %s(%q) returned a value although a shard on its hash path is unavailable", d.c, what, ep.name, q))
+					} else if !store.IsInjected(err2) {
+						viol("missing-shard-lookup-notfound", fmt.Sprintf("%s %s: %s(%q) returned %q instead of the load error", d.c, what, ep.name, q, err2))
+					}
 				}
 			}
 			// native lookup: never a wrong value, never a panic
